@@ -23,6 +23,7 @@ package tally
 import (
 	"bytes"
 	"sync"
+	"unicode/utf8"
 )
 
 var (
@@ -156,6 +157,14 @@ func (c *ValidCharacters) sanitizeFn(repChar rune) SanitizeFn {
 				if c.Characters[i] == ch {
 					validCurr = true
 					break
+				}
+			}
+
+			if validCurr && ch == utf8.RuneError {
+				// ranging over a string yields utf8.RuneError for an invalid
+				// byte too: such a byte is never valid, even when U+FFFD is.
+				if _, width := utf8.DecodeRuneInString(value[idx:]); width <= 1 {
+					validCurr = false
 				}
 			}
 
